@@ -165,6 +165,49 @@ async fn run_case(case: Vec<String>) -> String {
                 cs.sort();
                 outs.push(format!("J {}", cs.iter().map(|c| c.to_string()).collect::<Vec<_>>().join(",")));
             }
+            "T" => {
+                // creation from several OS threads at once (real parallelism)
+                let threads: usize = p[1].parse().unwrap();
+                let iters: usize = p[2].parse().unwrap();
+                let mut all: Vec<u32> = Vec::with_capacity(threads * iters);
+                let mut per_thread_sorted = true;
+                std::thread::scope(|sc| {
+                    let mut hs = vec![];
+                    for _ in 0..threads {
+                        let d = dialog.clone();
+                        hs.push(sc.spawn(move || {
+                            let mut v = Vec::with_capacity(iters);
+                            for _ in 0..iters {
+                                let r = d.create_request(Method::INFO);
+                                let c: CSeq = r.headers.get_named().unwrap();
+                                v.push(c.cseq);
+                            }
+                            v
+                        }));
+                    }
+                    for h in hs {
+                        let v = h.join().unwrap();
+                        if v.windows(2).any(|w| w[0] >= w[1]) {
+                            per_thread_sorted = false;
+                        }
+                        all.extend(v);
+                    }
+                });
+                all.sort();
+                let distinct = {
+                    let mut d = all.clone();
+                    d.dedup();
+                    d.len()
+                };
+                outs.push(format!(
+                    "T min={} max={} n={} distinct={} increasing={}",
+                    all.first().copied().unwrap_or(0),
+                    all.last().copied().unwrap_or(0),
+                    all.len(),
+                    distinct,
+                    per_thread_sorted
+                ));
+            }
             "R" => {
                 let code: u16 = p[1].parse().unwrap();
                 let inv = invite_req.as_ref().expect("R only on the UAS side");
